@@ -12,9 +12,15 @@ echo "== confirm in scratch worktree"
 ( cd $WT/_b && cmake --build . -j8 >/dev/null 2>&1; ctest -j8 --timeout 900 2>&1 | grep "tests passed" ) | tee $OUT/confirm.txt
 AS_MSGPATH=$WT/_b bash $OUT/demo.sh $WT/_b >/dev/null 2>&1; echo "demo with change: exit $?" | tee -a $OUT/confirm.txt
 if [ -d $WT/_b0 ]; then AS_MSGPATH=$WT/_b0 bash $OUT/demo.sh $WT/_b0 >/dev/null 2>&1; echo "demo without change: exit $?" | tee -a $OUT/confirm.txt; fi
-echo "== run check on patched /repo"
-git -C /repo apply $OUT/patch.diff || { echo "patch does not apply"; exit 3; }
-( cd /verif && python3 run.py $PROP "$@" 2>&1 | grep -v "^WARNING" | tail -15 ) | tee $OUT/check_output.txt
-echo "check exit: ${PIPESTATUS[0]}" 
-git -C /repo checkout -- .
-git -C /repo status --short | grep -v _build
+if [ "${SEED_SCRATCH:-0}" = "1" ]; then
+  # long-running checks: run against the sub-agent's scratch worktree (which carries the patch) so that /repo stays
+  # untouched and other checks can run meanwhile; evidence/replays of this run are not kept
+  echo "== run check with VERIF_REPO=$WT (patched scratch worktree)"
+  ( cd /verif && VERIF_REPO=$WT VERIF_EVIDENCE_DIR=/var/tmp/seed_evidence python3 run.py $PROP "$@" 2>&1 | grep -v "^WARNING" | tail -15 ) | tee $OUT/check_output.txt
+else
+  echo "== run check on patched /repo"
+  git -C /repo apply $OUT/patch.diff || { echo "patch does not apply"; exit 3; }
+  ( cd /verif && python3 run.py $PROP "$@" 2>&1 | grep -v "^WARNING" | tail -15 ) | tee $OUT/check_output.txt
+  git -C /repo checkout -- .
+  git -C /repo status --short | grep -v _build
+fi
